@@ -254,7 +254,14 @@ fn random_history(prop: &str, coin: &str, n_tx: usize, reuse: bool, rng: &mut Rn
                         break;
                     }
                 }
-                let n = rng.usize(1, 3);
+                // a null outpoint (what a coinbase references) among the inputs of an ordinary spend
+                if rng.chance(1, 6) {
+                    let at = if rng.coin() { 0 } else { rng.usize(0, ins.len()) };
+                    let f = hist.funding_input();
+                    ins.insert(at, f);
+                }
+                // everything burnt as fee: a spend without any output
+                let n = if rng.chance(1, 6) { 0 } else { rng.usize(1, 3) };
                 let tx = create_tx(&mut hist, coin, &keys, n, rng, ins, true);
                 hist.add(tx, true, coin);
             }
@@ -397,7 +404,13 @@ fn probes(scn: &Scenario, m: &Model, st: &mut Stats) {
     for (bi, b) in scn.chain.iter().enumerate() {
         for (ti, t) in b.txs.iter().enumerate() {
             let id = m.built.active[bi].txs[ti].txid.to_vec();
-            for i in &t.inputs {
+            for (ii, i) in t.inputs.iter().enumerate() {
+                if t.outputs.is_empty() && created.contains_key(&i.prev_txid.0) {
+                    st.probe("known_output_spent_by_tx_without_outputs");
+                }
+                if created.contains_key(&i.prev_txid.0) && t.inputs[..ii].iter().any(|p| p.prev_index == 0xffff_ffff && p.prev_txid.0.iter().all(|b| *b == 0)) {
+                    st.probe("known_output_spent_after_null_outpoint_in_same_tx");
+                }
                 if created.get(&i.prev_txid.0) == Some(&bi) {
                     st.probe("spend_in_creating_block");
                 }
@@ -446,7 +459,7 @@ impl Prop for C07 {
         small + if tier == Tier::Quick { 700 } else { 8000 }
     }
     fn required_probes(&self, _tier: Tier) -> Vec<&'static str> {
-        vec!["spend_in_creating_block", "duplicate_txid", "spend_unknown_outpoint", "tx_with_over_256_outputs", "spent_index_past_255", "zero_value_output", "txids_sharing_8_bytes"]
+        vec!["spend_in_creating_block", "duplicate_txid", "spend_unknown_outpoint", "tx_with_over_256_outputs", "spent_index_past_255", "zero_value_output", "txids_sharing_8_bytes", "known_output_spent_by_tx_without_outputs", "known_output_spent_after_null_outpoint_in_same_tx"]
     }
     fn explore(&self, item: u64, rng: &mut Rng, tier: Tier, h: &mut Harness) -> Result<(), String> {
         let maxk = if tier == Tier::Quick { 3 } else { 4 };
